@@ -1,12 +1,303 @@
-//! C13 part 2 — mutation / recombination components (module of bin `c13`).
+//! C13 part 2 — mutation / recombination components (module of bin `c13`): every case runs the
+//! REAL component through `init` + `execute` on a `State` with one (DE crossover: two) population(s).
+//! The harness prints input and resulting population only; the witness (indices, masks, draws) is
+//! read off the unique element tags by the Lean driver, which also checks that it is a legal one.
+use hcommon::problems::{OneMax, Sphere, Tsp};
 use hcommon::*;
+use mahf::components::mutation::de::DEMutation;
+use mahf::components::mutation::common::InsertionMutation;
+use mahf::components::mutation::*;
+use mahf::components::recombination::de::{DEBinomialCrossover, DEExponentialCrossover};
+use mahf::components::recombination::*;
+use mahf::state::common::Populations;
+use mahf::{Component, Individual, Problem, Random, SingleObjective, State};
+use rand::{RngCore, SeedableRng};
 
-pub fn run_component(name: &str, _a: &[Sx]) -> String {
-    panic!("unknown case kind {name}")
+/// A generator whose every word is zero: `gen::<f64>()` = 0.0, the smallest possible draw.
+pub struct ZeroRng;
+impl RngCore for ZeroRng {
+    fn next_u32(&mut self) -> u32 { 0 }
+    fn next_u64(&mut self) -> u64 { 0 }
+    fn fill_bytes(&mut self, dest: &mut [u8]) { for b in dest { *b = 0 } }
+    fn try_fill_bytes(&mut self, dest: &mut [u8]) -> Result<(), rand::Error> { self.fill_bytes(dest); Ok(()) }
+}
+impl SeedableRng for ZeroRng {
+    type Seed = [u8; 8];
+    fn from_seed(_: [u8; 8]) -> Self { ZeroRng }
 }
 
-pub fn site_of(name: &str, _a: &[Sx]) -> String {
-    name.to_string()
+fn fl(x: &Sx) -> Vec<f64> { x.items().unwrap().iter().map(|t| t.float().unwrap()).collect() }
+fn us(x: &Sx) -> Vec<usize> { x.items().unwrap().iter().map(|t| t.nat().unwrap() as usize).collect() }
+fn bl(x: &Sx) -> Vec<bool> { x.items().unwrap().iter().map(|t| t.atom().unwrap() == "t").collect() }
+fn fs(v: &[f64]) -> String { list(v.iter().map(|&x| fx(x))) }
+fn vs(v: &[usize]) -> String { nats(v.iter().map(|&x| x as u64)) }
+fn bs(v: &[bool]) -> String { list(v.iter().map(|&x| b(x))) }
+fn pop_of<T>(x: &Sx, f: impl Fn(&Sx) -> Vec<T>) -> Vec<Vec<T>> {
+    let (_, sols) = x.head().unwrap();
+    sols.iter().map(|s| f(s)).collect()
+}
+fn rng_of(x: &Sx) -> Random {
+    match x.atom().unwrap() {
+        "zero" => Random::with_rng::<ZeroRng>(0),
+        s => Random::new(s.parse().unwrap()),
+    }
 }
 
-pub fn generate(_a: &Args, _rng: &mut Sm, _emit: &mut dyn FnMut(String)) {}
+/// Runs `init` + `execute` of `comp` on a state holding `pops` (bottom first) of EVALUATED individuals;
+/// prints the stack height, the evaluated flags and the solutions of the top population.
+fn run<P: Problem<Objective = SingleObjective>>(problem: &P, comp: Result<Box<dyn Component<P>>, ()>, rng: Random,
+                   pops: Vec<Vec<P::Encoding>>, show: impl Fn(&P::Encoding) -> String) -> String {
+    let Ok(comp) = comp else { return "(e ctor)".into() };
+    let r = catch(|| {
+        let mut state: State<P> = State::new();
+        state.insert(Populations::<P>::new());
+        state.insert(rng);
+        for p in pops {
+            state.populations_mut().push(p.into_iter().map(|s| Individual::new(s, SingleObjective::try_from(1.0).unwrap())).collect());
+        }
+        if comp.init(problem, &mut state).is_err() { return "(e init)".to_string(); }
+        match comp.execute(problem, &mut state) {
+            Err(_) => "(e exec)".to_string(),
+            Ok(()) => {
+                let pops = state.populations();
+                let top: Vec<String> = pops.current().iter().map(|i| show(i.solution())).collect();
+                let ev: Vec<String> = pops.current().iter().map(|i| b(i.is_evaluated())).collect();
+                list(["ok".to_string(), pops.len().to_string(), tagged("ev", ev), tagged("pop", top)])
+            }
+        }
+    });
+    r.unwrap_or_else(|| "panic".into())
+}
+
+pub fn run_component(name: &str, a: &[Sx]) -> String {
+    let dim_of = |n: usize| n.max(1);
+    match name {
+        "mut-normal" | "mut-uniform" => {
+            let (p1, rm) = (a[0].float().unwrap(), a[1].float().unwrap());
+            let pop = pop_of(&a[3], fl);
+            let problem = Sphere::new(dim_of(pop.first().map_or(0, |s| s.len())), -5.0, 5.0, 0.0);
+            let c = if name == "mut-normal" { NormalMutation::new(p1, rm) } else { UniformMutation::new(p1, rm) };
+            run(&problem, Ok(c), rng_of(&a[2]), vec![pop], |s| fs(s))
+        }
+        "mut-spread" => {
+            let (lo, hi, rm) = (a[0].float().unwrap(), a[1].float().unwrap(), a[2].float().unwrap());
+            let pop = pop_of(&a[4], fl);
+            let problem = Sphere::new(pop.first().map_or(0, |s| s.len()), lo, hi, 0.0);
+            run(&problem, Ok(PartialRandomSpread::new(rm)), rng_of(&a[3]), vec![pop], |s| fs(s))
+        }
+        "mut-bitflip" | "mut-bits" => {
+            let (p, rm) = (a[0].float().unwrap(), a[1].float().unwrap());
+            let pop = pop_of(&a[3], bl);
+            let problem = OneMax::new(pop.first().map_or(0, |s| s.len()));
+            let c = if name == "mut-bitflip" { BitFlipMutation::new(rm) } else { PartialRandomBitstring::new(p, rm) };
+            run(&problem, Ok(c), rng_of(&a[2]), vec![pop], |s| bs(s))
+        }
+        "pmut-swap" | "pmut-scramble" | "pmut-inversion" | "pmut-insertion" | "pmut-transloc" => {
+            let pop = pop_of(&a[2], us);
+            let n = pop.first().map_or(0, |s| s.len());
+            let problem = Tsp::new(vec![vec![1.0; n]; n]);
+            let c: Result<Box<dyn Component<Tsp>>, ()> = match name {
+                "pmut-swap" => SwapMutation::new(a[0].nat().unwrap() as u32).map_err(|_| ()),
+                "pmut-scramble" => Ok(ScrambleMutation::new(a[0].float().unwrap())),
+                "pmut-inversion" => Ok(Box::new(InversionMutation::from_params())),
+                "pmut-insertion" => Ok(InsertionMutation::new()),
+                _ => Ok(TranslocationMutation::new()),
+            };
+            run(&problem, c, rng_of(&a[1]), vec![pop], |s| vs(s))
+        }
+        "rec-npoint" | "rec-uniform" | "rec-cycle" => {
+            let n = a[0].nat().unwrap() as usize;
+            let (pc, both) = (a[1].float().unwrap(), a[2].atom().unwrap() == "t");
+            let pop = pop_of(&a[4], us);
+            let d = pop.first().map_or(0, |s| s.len());
+            let problem = Tsp::new(vec![vec![1.0; d]; d]);
+            let c: Box<dyn Component<Tsp>> = match name {
+                "rec-npoint" => NPointCrossover::new(n, pc, both),
+                "rec-uniform" => UniformCrossover::new(pc, both),
+                _ => CycleCrossover::new(pc, both),
+            };
+            run(&problem, Ok(c), rng_of(&a[3]), vec![pop], |s| vs(s))
+        }
+        "rec-arith" => {
+            let (pc, both) = (a[1].float().unwrap(), a[2].atom().unwrap() == "t");
+            let pop = pop_of(&a[4], fl);
+            let problem = Sphere::new(pop.first().map_or(0, |s| s.len()), -5.0, 5.0, 0.0);
+            run(&problem, Ok(ArithmeticCrossover::new(pc, both)), rng_of(&a[3]), vec![pop], |s| fs(s))
+        }
+        "demut" => {
+            let (y, f) = (a[0].nat().unwrap() as u32, a[1].float().unwrap());
+            let pop = pop_of(&a[2], fl);
+            let problem = Sphere::new(pop.first().map_or(0, |s| s.len()), -5.0, 5.0, 0.0);
+            run(&problem, DEMutation::new(y, f).map_err(|_| ()), Random::new(0), vec![pop], |s| fs(s))
+        }
+        "decx" => {
+            let kind = a[0].atom().unwrap();
+            let pc = a[1].float().unwrap();
+            let dim = a[3].nat().unwrap() as usize;
+            let pops: Vec<Vec<Vec<f64>>> = a[4..].iter().map(|p| pop_of(p, fl)).collect();   // bottom first: base, then mut
+            let problem = Sphere::new(dim, -5.0, 5.0, 0.0);
+            let c: Box<dyn Component<Sphere>> = if kind == "bin" { DEBinomialCrossover::new(pc) } else { DEExponentialCrossover::new(pc) };
+            run(&problem, Ok(c), rng_of(&a[2]), pops, |s| fs(s))
+        }
+        _ => panic!("unknown case kind {name}"),
+    }
+}
+
+fn unit(x: f64) -> bool { (0.0..=1.0).contains(&x) }
+
+pub fn site_of(name: &str, a: &[Sx]) -> String {
+    let zero = |i: usize| a[i].atom() == Some("zero");
+    let dim = |i: usize| a[i].head().map_or(0, |(_, s)| s.first().map_or(0, |x| x.items().map_or(0, |v| v.len())));
+    let (site, ok): (&str, bool) = match name {
+        "mut-normal" => ("NormalMutation", a[0].float().unwrap() >= 0.0 && unit(a[1].float().unwrap())),
+        "mut-uniform" => ("UniformMutation", a[0].float().unwrap() >= 0.0 && unit(a[1].float().unwrap())),
+        "mut-spread" => ("PartialRandomSpread", unit(a[2].float().unwrap())),
+        "mut-bitflip" => ("BitFlipMutation", unit(a[1].float().unwrap())),
+        "mut-bits" => ("PartialRandomBitstring", unit(a[0].float().unwrap()) && unit(a[1].float().unwrap())),
+        "pmut-swap" => { let k = a[0].nat().unwrap() as usize; ("SwapMutation", k >= 2 && (k <= dim(2) || a[2].items().map_or(true, |v| v.len() <= 1))) }
+        "pmut-scramble" => ("ScrambleMutation", unit(a[0].float().unwrap())),
+        "pmut-inversion" => ("InversionMutation", true),
+        "pmut-insertion" => ("InsertionMutation", true),
+        "pmut-transloc" => ("TranslocationMutation", true),
+        "rec-npoint" => { let n = a[0].nat().unwrap() as usize; ("NPointCrossover", n >= 1 && n < dim(4)) }
+        "rec-uniform" => ("UniformCrossover", true),
+        "rec-cycle" => ("CycleCrossover", true),
+        "rec-arith" => ("ArithmeticCrossover", true),
+        "demut" => { let y = a[0].nat().unwrap(); let f = a[1].float().unwrap(); ("DEMutation", (y == 1 || y == 2) && f > 0.0 && f <= 2.0) }
+        "decx" => (if a[0].atom() == Some("bin") { "DEBinomialCrossover" } else { "DEExponentialCrossover" }, a.len() >= 6),
+        _ => (name, true),
+    };
+    let z = match name {
+        "rec-npoint" | "rec-uniform" | "rec-cycle" | "rec-arith" => zero(3),
+        _ => false,
+    };
+    format!("{}{}{}", site, if z { "@zero-draw" } else { "" }, if ok { "" } else { "!malformed" })
+}
+
+// ------------------------------------------------------------------ generators
+struct G<'a> { rng: &'a mut Sm }
+impl<'a> G<'a> {
+    fn reals(&mut self, n: usize, dim: usize) -> Vec<Vec<f64>> {
+        // distinct values: a different fractional part for every coordinate of the case
+        let mut k = 0.0;
+        (0..n).map(|_| (0..dim).map(|_| { k += 1.0; (self.rng.unit() * 8.0 - 4.0).floor() + k / 1024.0 }).collect()).collect()
+    }
+    fn bits(&mut self, n: usize, dim: usize) -> Vec<Vec<bool>> {
+        (0..n).map(|_| (0..dim).map(|_| self.rng.chance(1, 2)).collect()).collect()
+    }
+    /// every gene of the case is a distinct tag: parent j, position i ↦ 100*(j+1)+i
+    fn tagged_vecs(&mut self, n: usize, dim: usize) -> Vec<Vec<usize>> {
+        (0..n).map(|j| (0..dim).map(|i| 100 * (j + 1) + i).collect()).collect()
+    }
+    fn perms(&mut self, n: usize, dim: usize) -> Vec<Vec<usize>> {
+        (0..n).map(|_| {
+            let mut p: Vec<usize> = (0..dim).collect();
+            for i in (1..dim).rev() { p.swap(i, self.rng.below(i as u64 + 1) as usize); }
+            p
+        }).collect()
+    }
+    fn seed(&mut self) -> u64 { self.rng.next() % 1_000_000 }
+}
+fn pf(p: &[Vec<f64>]) -> String { tagged("pop", p.iter().map(|s| fs(s))) }
+fn pu(p: &[Vec<usize>]) -> String { tagged("pop", p.iter().map(|s| vs(s))) }
+fn pb(p: &[Vec<bool>]) -> String { tagged("pop", p.iter().map(|s| bs(s))) }
+
+pub fn generate(a: &Args, rng: &mut Sm, emit: &mut dyn FnMut(String)) {
+    let mut g = G { rng };
+    let reps = if a.thorough { 12 } else { 3 };
+    let rates = [0.0, 0.5, 1.0];
+    let probs = [0.0, 0.3, 1.0];
+    for _ in 0..reps {
+        for dim in 1..=8usize {
+            for &rm in &rates {
+                let n = g.rng.range(0, 4) as usize;
+                // real / bit mutations
+                let p = g.reals(n, dim);
+                emit(format!("(mut-normal {} {} {} {})", fx(*g.rng.pick(&[0.0, 0.1, 1.0, 25.0])), fx(rm), g.seed(), pf(&p)));
+                emit(format!("(mut-uniform {} {} {} {})", fx(*g.rng.pick(&[0.0, 0.1, 1.0, 25.0])), fx(rm), g.seed(), pf(&p)));
+                let (lo, hi) = *g.rng.pick(&[(-5.0, 5.0), (0.0, 10.0), (-5.0, -2.0), (1e-3, 1e6)]);
+                emit(format!("(mut-spread {} {} {} {} {})", fx(lo), fx(hi), fx(rm), g.seed(), pf(&p)));
+                let q = g.bits(n, dim);
+                emit(format!("(mut-bitflip {} {} {} {})", fx(0.5), fx(rm), g.seed(), pb(&q)));
+                for pr in [0.0, 0.5, 1.0] {
+                    emit(format!("(mut-bits {} {} {} {})", fx(pr), fx(rm), g.seed(), pb(&q)));
+                }
+                // scramble
+                let t = g.tagged_vecs(n, dim);
+                emit(format!("(pmut-scramble {} {} {})", fx(rm), g.seed(), pu(&t)));
+            }
+            // permutation mutations without a rate
+            for _ in 0..4 {
+                let n = g.rng.range(0, 4) as usize;
+                let t = g.tagged_vecs(n, dim);
+                emit(format!("(pmut-inversion 0 {} {})", g.seed(), pu(&t)));
+                emit(format!("(pmut-insertion 0 {} {})", g.seed(), pu(&t)));
+                emit(format!("(pmut-transloc 0 {} {})", g.seed(), pu(&t)));
+            }
+            for k in 0..=dim + 1 {
+                let n = g.rng.range(0, 3) as usize;
+                let t = g.tagged_vecs(n, dim);
+                emit(format!("(pmut-swap {} {} {})", k, g.seed(), pu(&t)));
+            }
+            // recombination
+            for &pc in &probs { for both in [true, false] {
+                for n in [0usize, 1, 2, 3, 4, 5, 6, 7] {
+                    if !a.thorough && n > 1 && (n + dim) % 3 == 0 { continue; }
+                    let t = g.tagged_vecs(n, dim);
+                    let cuts = g.rng.range(0, dim as u64 + 1) as usize;
+                    emit(format!("(rec-npoint {} {} {} {} {})", cuts, fx(pc), b(both), g.seed(), pu(&t)));
+                    if dim >= 2 {
+                        emit(format!("(rec-npoint {} {} {} {} {})", g.rng.range(1, dim as u64 - 1), fx(pc), b(both), g.seed(), pu(&t)));
+                    }
+                    emit(format!("(rec-uniform 0 {} {} {} {})", fx(pc), b(both), g.seed(), pu(&t)));
+                    let pp = g.perms(n, dim);
+                    emit(format!("(rec-cycle 0 {} {} {} {})", fx(pc), b(both), g.seed(), pu(&pp)));
+                    let r = g.reals(n, dim);
+                    emit(format!("(rec-arith 0 {} {} {} {})", fx(pc), b(both), g.seed(), pf(&r)));
+                }
+            } }
+            // the smallest possible draw (all-zero generator): `gen::<f64>() <= pc` at pc = 0
+            for both in [true, false] { for n in [2usize, 3, 4] {
+                let t = g.tagged_vecs(n, dim);
+                if dim >= 2 { emit(format!("(rec-npoint 1 {} {} zero {})", fx(0.0), b(both), pu(&t))); }
+                emit(format!("(rec-uniform 0 {} {} zero {})", fx(0.0), b(both), pu(&t)));
+                let r = g.reals(n, dim);
+                emit(format!("(rec-arith 0 {} {} zero {})", fx(0.0), b(both), pf(&r)));
+                let pp: Vec<Vec<usize>> = (0..n).map(|j| (0..dim).map(|i| (i + j) % dim).collect()).collect();
+                emit(format!("(rec-cycle 0 {} {} zero {})", fx(0.0), b(both), pu(&pp)));
+            } }
+            // DE mutation: every y, population sizes 0..11 (multiples of 2y+1 and not)
+            for y in [1u64, 2] { for n in 0..=11usize {
+                let f = *g.rng.pick(&[0.5, 1.0, 2.0, 0.25]);
+                let r = g.reals(n, dim);
+                emit(format!("(demut {} {} {})", y, fx(f), pf(&r)));
+            } }
+            // DE crossovers
+            for kind in ["bin", "exp"] { for &pc in &probs { for n in [0usize, 1, 3] {
+                let base = g.reals(n, dim);
+                let mutant: Vec<Vec<f64>> = g.reals(n, dim).into_iter().map(|s| s.into_iter().map(|x| x + 0.5).collect()).collect();
+                emit(format!("(decx {} {} {} {} {} {})", kind, fx(pc), g.seed(), dim, pf(&base), pf(&mutant)));
+            } } }
+        }
+    }
+    // parameter values outside the documented domain (never a violation; the model must still agree)
+    let p = g.reals(2, 3);
+    let q = g.bits(2, 3);
+    let t = g.tagged_vecs(2, 3);
+    for bad in [-0.5, 1.5] {
+        emit(format!("(mut-normal {} {} 1 {})", fx(1.0), fx(bad), pf(&p)));
+        emit(format!("(mut-uniform {} {} 1 {})", fx(1.0), fx(bad), pf(&p)));
+        emit(format!("(mut-spread {} {} {} 1 {})", fx(-5.0), fx(5.0), fx(bad), pf(&p)));
+        emit(format!("(mut-bitflip {} {} 1 {})", fx(0.5), fx(bad), pb(&q)));
+        emit(format!("(mut-bits {} {} 1 {})", fx(0.5), fx(bad), pb(&q)));
+        emit(format!("(pmut-scramble {} 1 {})", fx(bad), pu(&t)));
+    }
+    emit(format!("(mut-uniform {} {} 1 {})", fx(-1.0), fx(0.5), pf(&p)));
+    for (y, f) in [(0u64, 1.0), (3, 1.0), (1, -0.5), (1, 2.5), (1, 0.0)] {
+        emit(format!("(demut {} {} {})", y, fx(f), pf(&g.reals(3, 2))));
+    }
+    // DE crossover with fewer than two populations
+    for kind in ["bin", "exp"] {
+        emit(format!("(decx {} {} 1 3 {})", kind, fx(0.5), pf(&g.reals(2, 3))));
+    }
+}
